@@ -9,6 +9,7 @@ TRUSTED = ['expected relations are computed from the generated documents; SQLite
 
 def tweak(rng, u):
     # relations are this property's subject: no expand lexicons (that is C12's)
+    u['interleave'] = True          # queries between the adds: nothing remembered from them may survive a later add
     for c in u['configs']:
         c['expand'] = ''
 
